@@ -357,6 +357,8 @@ NP_FUNCS = {
     'numpy.all': lambda x, **k: _all(x), 'numpy.any': lambda x, **k: _any(x),
     'numpy.mean': lambda x, axis=None: np.sum(x, axis=axis) / (S(x.size) if axis is None else S(x.shape[axis])),
     'numpy.conj': lambda x: vmap(sp.conjugate, x),
+    'numpy.min': lambda x, **k: sp.Min(*np.asarray(x, dtype=object).flat), 'numpy.max': lambda x, **k: sp.Max(*np.asarray(x, dtype=object).flat),
+    'numpy.amin': lambda x, **k: sp.Min(*np.asarray(x, dtype=object).flat), 'numpy.amax': lambda x, **k: sp.Max(*np.asarray(x, dtype=object).flat),
     'numpy.logical_not': lambda x: (not x) if isinstance(x, bool) else np.array([not v if isinstance(v, (bool, np.bool_)) else sp.Not(v) for v in np.asarray(x, dtype=object).flat], dtype=object).reshape(np.shape(x)),
     'numpy.real': lambda x: vmap(sp.re, x), 'numpy.imag': lambda x: vmap(sp.im, x),
     'copy.deepcopy': lambda x: _copy(x), 'copy.copy': lambda x: _copy(x),
@@ -462,6 +464,7 @@ class SymEval:
         self.trace = []
         self.text_mode = False  # f-strings / %-formatting become Text values
         self.try_depth = 0
+        self.module = None      # ast.Module: module-level `NAME = {}` / `[]` / constant bindings become visible (one fresh object per evaluator)
         self.np_override = {}   # dotted numpy name -> model function (consulted before NP_FUNCS)
         self.globals = {}       # module-level names visible in every inlined function (rule-provided models of imports)
 
@@ -502,6 +505,13 @@ class SymEval:
             return p.env[n.id]
         if n.id in self.globals:
             return self.globals[n.id]
+        if self.module is not None:
+            for st in self.module.body:
+                if isinstance(st, ast.Assign) and len(st.targets) == 1 and isinstance(st.targets[0], ast.Name) and st.targets[0].id == n.id:
+                    v = st.value
+                    if isinstance(v, ast.Constant) or (isinstance(v, ast.Dict) and not v.keys) or (isinstance(v, (ast.List, ast.Tuple)) and not v.elts):
+                        self.globals[n.id] = self.ev(v, Path({}))
+                        return self.globals[n.id]
         if n.id in ('True', 'False', 'None'):
             return {'True': True, 'False': False, 'None': None}[n.id]
         if n.id in self.classes:
@@ -777,6 +787,8 @@ class SymEval:
                 return lambda: list(base.items())
             if attr == 'update':
                 return base.update
+            if attr == 'clear':
+                return base.clear
             if attr == 'setdefault':
                 return base.setdefault
         if isinstance(base, list) and attr in ('append', 'index', 'pop', 'insert', 'extend', 'count', 'copy'):
@@ -795,6 +807,8 @@ class SymEval:
                     out.append(x)
                 return Text(out)
             return _join
+        if self.try_depth > 0:
+            raise _PyRaise('AttributeError')
         raise Opaque('attribute .%s of %s in %s' % (attr, type(base).__name__, norm(n)))
 
     def e_Subscript(self, n, p):
